@@ -337,10 +337,11 @@ def format_f64_files(S: Sources):
                          (r"\bstr\s*\.\s*find\(\s*'\.'\s*\)", "find_dot(&str)", 1),
                          (r"\bstr\s*\.\s*truncate\(([^()]*)\)", r"truncate(&mut str, \1)", "any"),
                          (r"\bstr\s*\.\s*get\(\s*(\w+)\s*\)", r"get_range(&str, \1.start, \1.end)", 1),
-                         (pin(PIN_PREZERO), "zeros_at_end(fract_str)", 1)],
+                         # two std idioms for "index, counted from the end, of the last byte that is not '0'"
+                         ("(?:" + pin(PIN_PREZERO) + r"|fract_str\s*\.\s*bytes\(\)\s*\.\s*rev\(\)\s*\.\s*position\(\s*\|\s*b\s*\|\s*b\s*!=\s*b'0'\s*\))", "zeros_at_end(fract_str)", 1)],
                   inserts=[(r"let mut str = f64_to_string \( val \) ;", "after", "let ghost r0 = str@;", 1),
                            (r"if fract_digits == 0 \{", "before", "proof { lemma_first_dot(r0, dot_index as int); }", 1, "hint"),
-                           (r"if let Some \( pre_zero \) = pre_zero \{", "before", """
+                           (r"zeros_at_end \( fract_str \) ;", "after", """
                                proof {
                                    assert(r0.subrange(dot_index + 1, dot_index + 1 + fract_digits) =~= fract_str@);
                                    match pre_zero { Some(z) => lemma_kept(fract_str@, z as int), None => lemma_kept(fract_str@, fract_str@.len() as int) }
